@@ -614,6 +614,34 @@ func searchExec(c *runCtx, ops []string) {
 				w.marked[id] = true
 			}
 			c.emit(line, "=> ok")
+		case "del":
+			// physical removal (what the GC does): every index key of the object must go with it
+			ids := o.ints("ids")
+			var err error
+			if w.sh != nil {
+				err = w.sh.Delete(numCID(1), idList(ids))
+			} else {
+				_, _, err = w.m.db.Delete(numCID(1), idList(ids))
+			}
+			if err != nil {
+				c.emit(line, "=> err")
+				continue
+			}
+			kept := w.objs[:0]
+			for _, x := range w.objs {
+				gone := false
+				for _, id := range ids {
+					gone = gone || x.id == id
+				}
+				if !gone {
+					kept = append(kept, x)
+				}
+			}
+			w.objs = kept
+			for _, id := range ids {
+				delete(w.marked, id)
+			}
+			c.emit(line, "=> ok")
 		case "epoch":
 			w.epoch.e.Store(o.u64("e"))
 			c.emit(line, "=> ok")
@@ -968,6 +996,25 @@ func searchGen(c *runCtx, run func([]string)) {
 				m = append(m, g.objs[r.IntN(len(g.objs))].id)
 			}
 			ops = append(ops, "search mark ids="+joinInts(m))
+		}
+		if r.IntN(2) == 0 {
+			// physically remove one or two stored regular objects that no tombstone targets
+			var d []int
+			for _, o := range g.objs {
+				if o.typ == "TOMBSTONE" || o.par != 0 || len(d) >= 2 || r.IntN(3) != 0 {
+					continue
+				}
+				targeted := false
+				for _, t := range g.objs {
+					targeted = targeted || (t.typ == "TOMBSTONE" && t.assoc == o.id)
+				}
+				if !targeted {
+					d = append(d, o.id)
+				}
+			}
+			if len(d) > 0 {
+				ops = append(ops, "search del ids="+joinInts(d))
+			}
 		}
 		ops = append(ops, fmt.Sprintf("search epoch e=%d", r.IntN(4)))
 		nq := c.n(25, 40)
